@@ -1,0 +1,78 @@
+//go:build verif
+
+package quartz
+
+import (
+	"time"
+
+	CSM "github.com/reugn/go-quartz/internal/csm"
+)
+
+// Verification hooks (build tag "verif"): read-only access for the
+// correspondence harness under /verif. Nothing here changes behaviour.
+
+// VerifFields is the parsed form of a cron expression: for each of the seven
+// fields (second, minute, hour, day-of-month, month, day-of-week, year) the
+// sorted value list and the special marker n.
+type VerifFields struct {
+	Values [7][]int
+	N      [7]int
+}
+
+func verifFields(fields []*cronField) VerifFields {
+	var out VerifFields
+	for i, f := range fields {
+		out.Values[i] = append([]int{}, f.values...)
+		out.N[i] = f.n
+	}
+	return out
+}
+
+// VerifParseFields runs the parser exactly as ValidateCronExpression does.
+func VerifParseFields(expression string) (VerifFields, error) {
+	fields, err := parseCronExpression(trimCronExpression(expression))
+	if err != nil {
+		return VerifFields{}, err
+	}
+	return verifFields(fields), nil
+}
+
+// VerifTriggerFields returns the fields a CronTrigger acts on.
+func VerifTriggerFields(ct *CronTrigger) VerifFields { return verifFields(ct.fields) }
+
+// VerifCSMNext runs the cron state machine once on the given wall clock
+// reading (interpreted in UTC) and returns the next reading, or false if the
+// machine reports that no valid year is left.
+func VerifCSMNext(ct *CronTrigger, wall time.Time) (time.Time, bool) {
+	return newCSMFromFields(wall.UTC(), ct.fields).NextTriggerTime(time.UTC)
+}
+
+// VerifDayN returns the day of the month selected by the L / W / # rule of
+// the trigger's day field in the given month, as DayNode.dayN computes it.
+func VerifDayN(ct *CronTrigger, year, month int) (int, bool) {
+	prev := time.Date(year, time.Month(month), 1, 0, 0, 0, 0, time.UTC)
+	y := CSM.NewCommonNode(prev.Year(), 0, maxYear, ct.fields[6].values)
+	m := CSM.NewCommonNode(int(prev.Month()), 1, 12, ct.fields[4].values)
+	var day *CSM.DayNode
+	if len(ct.fields[5].values) != 0 {
+		day = CSM.NewWeekDayNode(1, 1, 31, ct.fields[5].n, ct.fields[5].values, m, y)
+	} else {
+		day = CSM.NewMonthDayNode(1, 1, 31, ct.fields[3].n, ct.fields[3].values, m, y)
+	}
+	return day.VerifDayN()
+}
+
+// VerifLastDayOfMonth, VerifClosestWeekday and VerifWeekday re-export the
+// calendar helpers of internal/csm.
+func VerifLastDayOfMonth(year, month int) int { return CSM.VerifLastDayOfMonth(year, month) }
+
+func VerifClosestWeekday(year, month, day int) int {
+	return CSM.VerifClosestWeekday(year, month, day)
+}
+
+func VerifWeekday(year, month, day int) int { return CSM.VerifWeekday(year, month, day) }
+
+// VerifNewScheduledJob mints a queue entry with a chosen priority.
+func VerifNewScheduledJob(jobDetail *JobDetail, trigger Trigger, priority int64) ScheduledJob {
+	return &scheduledJob{job: jobDetail, trigger: trigger, priority: priority}
+}
